@@ -174,6 +174,36 @@ def method(ex, base, name, e, st):
             return ctx.card_of(lambda x: g.node(x), "nnodes")
         raise Unsupported(f"DiGraph.{name}")
 
+    # ---------------------------------------------------------------- pysat IDPool / CNF (assumed contract, DESIGN 5.1)
+    if isinstance(base, ObjRef) and base.kind == "IDPool":
+        from pyvc.exec import LitV
+        if name == "id":
+            used("pysat.IDPool.id (injective, positive)")
+            args, _ = ex.args_of(e, st)
+            return LitV(obj_of(ex, args[0]), True)
+        raise Unsupported("IDPool." + name)
+    if isinstance(base, ObjRef) and base.kind == "CNF":
+        if name == "append":
+            used("pysat.CNF.append")
+            args, _ = ex.args_of(e, st)
+            rec = dict(st.heap[base.oid])
+            rec["sat"] = z3.And(rec["sat"], clause_true(ex, args[0]))
+            from pyvc.exec import LitColl
+            cl = LitColl.of(args[0]) if isinstance(args[0], list) else args[0]
+            if cl.lits is not None:
+                men = rec["men"]
+                for l in cl.lits:
+                    men = z3.Store(men, l.obj, True)
+            else:
+                men = ex.ctx.fresh("mentioned", z3.ArraySort(ex.ctx.Obj, B))
+                o_ = ex.ctx.fresh("mo", ex.ctx.Obj)
+                ax = z3.ForAll([o_], z3.Select(men, o_) == z3.Or(z3.Select(rec["men"], o_), cl.pos(o_), cl.neg(o_)))
+                ex.ctx.def_ids.add(ax.get_id())
+                st.pc.append(ax)
+            rec["men"] = men
+            st.heap[base.oid] = rec
+            return NONE
+        raise Unsupported("CNF." + name)
     # ---------------------------------------------------------------- collections
     if isinstance(base, Coll):
         args, kwargs = ex.args_of(e, st)
@@ -285,6 +315,48 @@ def method(ex, base, name, e, st):
 class DictItems:
     def __init__(self, d):
         self.d = d
+
+
+def mu_of(ex):
+    """the arbitrary (never constrained) assignment of pool objects that clause semantics is stated for"""
+    if not hasattr(ex, "_mu"):
+        ex._mu = ex.ctx.fresh("mu", z3.ArraySort(ex.ctx.Obj, B))
+    return ex._mu
+
+
+def obj_of(ex, v):
+    O = ex.ctx.Obj
+    from pyvc.engine import TupleV
+    if isinstance(v, (NameV, StrLit)):
+        return O.nm(ex.name_term(v))
+    if isinstance(v, ObjV):
+        return v.term
+    if isinstance(v, TupleV) and v.items and isinstance(v.items[0], StrLit):
+        tag = v.items[0].s
+        if tag == "xor" and len(v.items) == 3:
+            return O.xorpair(obj_of(ex, v.items[1]), obj_of(ex, v.items[2]))
+        if tag == "xor_inv" and len(v.items) == 2:
+            return O.xorinv(ex.name_term(v.items[1]))
+    raise Unsupported(f"object registered in the IDPool: {v!r}")
+
+
+class ObjV:
+    def __init__(self, term):
+        self.term = term
+
+
+def clause_true(ex, clause):
+    """the clause holds under mu"""
+    from pyvc.exec import LitColl, LitV
+    mu = mu_of(ex)
+    if isinstance(clause, list):
+        clause = LitColl.of(clause)
+    if not isinstance(clause, LitColl):
+        raise Unsupported(f"clause {clause!r}")
+    if clause.lits is not None:
+        return z3.Or([z3.Select(mu, l.obj) if l.pos else z3.Not(z3.Select(mu, l.obj)) for l in clause.lits]) if clause.lits else z3.BoolVal(False)
+    o = ex.ctx.fresh("o", ex.ctx.Obj)
+    return z3.Or(z3.Exists([o], z3.And(clause.pos(o), z3.Select(mu, o))), z3.Exists([o], z3.And(clause.neg(o), z3.Not(z3.Select(mu, o)))))
 
 
 def new_circuit(ex, st, e):
